@@ -469,6 +469,9 @@ impl Decoder {
             let key_slice = t!(Aes256CbcDec::new(&intermediate_key, zero_iv)
                 .decrypt_padded_mut::<NoPadding>(&mut wrapped_key)
                 .map_err(|_| PdfError::InvalidPassword));
+            if key_slice.len() != 32 {
+                bail!("UE/OE should have a length of 32 bytes, not {}", key_slice.len());
+            }
 
             let decoder = Decoder::new(key_slice.into(),  32, method, dict.encrypt_metadata);
             Ok(decoder)
